@@ -45,8 +45,28 @@ class Subjects(object):
         self.ok = True
         self.mem, bad = self._call("MemorySource(stix_data)", lambda: stix2.MemorySource(stix_data=[dict(o) for o in self.pop]))
         sink = stix2.FileSystemSink(tmp, allow_custom=True, bundlify=bool(case.get("bundlify")))
-        _, bad2 = self._call("FileSystemSink.add", lambda: sink.add([dict(o) for o in self.pop]))
-        self.fs = stix2.FileSystemSource(tmp, allow_custom=True)
+        stage = case.get("stage")
+        if stage:
+            # the source is alive (and has been asked) while the directory is still filling: objects without timestamps first when
+            # asked for, so that a type directory is seen flat before its first <id>/<modified>.json arrives
+            order = list(self.pop)
+            if stage.get("flat_first"):
+                order = [o for o in order if "modified" not in o] + [o for o in order if "modified" in o]
+            k = 1 + stage.get("k", 0) % max(1, len(order))
+            first, rest = order[:k], order[k:]
+            _, bad2 = self._call("FileSystemSink.add", lambda: sink.add([dict(o) for o in first]))
+            self.fs = stix2.FileSystemSource(tmp, allow_custom=True)
+            if not bad2:
+                got, bad2 = self._call("filesystem.query", self.fs.query)
+                if not bad2:
+                    S.compare_answer("filesystem.query() on the partly filled directory", got, M.ListModel(first).objs, self.fails, "filesystem:staged-query")
+                for sid in sorted({o["id"] for o in rest})[:3]:
+                    self._call("filesystem.get", self.fs.get, sid)       # asked before it exists
+            if rest and not bad2:
+                _, bad2 = self._call("FileSystemSink.add", lambda: sink.add([dict(o) for o in rest]))
+        else:
+            _, bad2 = self._call("FileSystemSink.add", lambda: sink.add([dict(o) for o in self.pop]))
+            self.fs = stix2.FileSystemSource(tmp, allow_custom=True)
         self.ok = not (bad or bad2)
 
     def _call(self, who, fn, *a, **kw):
@@ -286,7 +306,8 @@ def population_and_queries(draw):
             f["route"] = draw(st.sampled_from(ROUTES)) if routed else "arg"
         queries.append({"filters": fs, "via": draw(st.sampled_from(["direct", "direct", "comp", "outer"])),
                         "split": draw(st.integers(0, 31)), "probe": draw(st.integers(0, 40))})
-    return {"bundlify": draw(st.sampled_from([False, False, False, True])), "pop": pop, "queries": queries}
+    stage = draw(st.one_of(st.none(), st.fixed_dictionaries({"k": st.integers(0, 30), "flat_first": st.booleans()})))
+    return {"bundlify": draw(st.sampled_from([False, False, False, True])), "pop": pop, "queries": queries, "stage": stage}
 
 
 REQUIRED_CLASSES = ["op:" + o for o in M.OPS] + ["route:arg", "route:attached", "route:comp", "route:outer", "routes-mixed", "kind:type", "kind:id",
@@ -301,7 +322,8 @@ def run(ctx):
                 "property kind with type-compatible values drawn from the population (type/id filters weighted 40%: repeated, contradictory, `in` "
                 "lists, !=, absent types); each filter delivered as query argument / attached to the source / attached to a composite / passed down "
                 "by an outer composite; subjects MemorySource, FileSystemSource (written by FileSystemSink, with and without bundlify), composite over "
-                "both; plus conjunction=intersection on the implementation alone and all_versions/get under attached filters. One evaluation = one "
+                "both; in half of the populations the filesystem source exists and has been queried before the second part of the population is written; "
+                "plus conjunction=intersection on the implementation alone and all_versions/get under attached filters. One evaluation = one "
                 "(population, filter set). Non-trivial = >= 2 filters of which >= 1 on type or id, population of >= 2 types, and 0 < |result| < "
                 "|population| for the set or one of its two parts; distinct = distinct (filter-set shape, result).")
     ctx.assumptions = ["a filter on a property the object lacks never holds (filters.py comment and repository tests)",
@@ -318,13 +340,15 @@ def run(ctx):
             if sizes is not None:
                 cl.add("result:empty" if sizes[0] == 0 else "result:everything" if sizes[0] == len(case["pop"]) else "result:proper-subset")
             shape = (G.filter_shape(q["filters"]), result)   # distinct = (filter-set shape, expected result)
-            notes.append(({"bundlify": case.get("bundlify"), "pop": case["pop"], "queries": [q]}, _nontrivial(case["pop"], q, sizes), sorted(cl),
+            notes.append(({"bundlify": case.get("bundlify"), "pop": case["pop"], "queries": [q], "stage": case.get("stage")}, _nontrivial(case["pop"], q, sizes), sorted(cl),
                           core.fingerprint(shape)))
         fails = check_case(case, per_query)
         for sub, nt, cl, fp in notes:
             ctx.note(sub, nt, cl, fp=fp)
         ctx.cls(*["pop-" + c for c in G.pool_classes(case["pop"])])
         ctx.cls("populations", "bundlify" if case.get("bundlify") else "plain-files")
+        if case.get("stage"):
+            ctx.cls("source-alive-while-directory-fills")
         ctx.handle(case, fails)
 
     core.run_given(ctx, population_and_queries(), body, ctx.n(300, 1800), label="c12-queries")
